@@ -27,7 +27,7 @@ PERT = ['add', 'remove', 'swap', 'rsa_size', 'ca_size', 'ca_type', 'gex']
 def cases(seed, tier):
     from ssh_audit.builtin_policies import BUILTIN_POLICIES
     for name in sorted(BUILTIN_POLICIES):
-        yield {'kind': 'builtin', 'policy_name': name, 'opts': ['-n'] if hash(name) % 2 else ['-j'], 'pseed': 7}
+        yield {'kind': 'builtin', 'policy_name': name, 'opts': ['-n'] if int(h(name), 16) % 2 else ['-j'], 'pseed': 7}
     for i in range(NCASES[tier] // 5):
         # client role (listen/accept): the two directions of a client's lists may legally differ
         rng = gen.case_rng(seed, ID, 'client', i)
